@@ -176,7 +176,8 @@ def run_batch(ctx, label, universe, hists, procs):
         for k, v in r["results"].items():
             d["results"][k] = d["results"].get(k, 0) + v
     ref_stack = "plain-mem"
-    for name in sorted(per_stack):
+    order = ["%s-%s" % (w, b) for w in L.WRAPS for b in L.BASES]
+    for name in sorted(per_stack, key=order.index):
         d = per_stack[name]
         for k, v in d["results"].items():
             ctx.count("operation results (%s)" % label, "%s %s" % (name, k), v)
@@ -231,7 +232,7 @@ def run(ctx):
         ctx.case("corpus:" + os.path.basename(p))
         if still:
             ctx.violation("corpus:" + os.path.basename(p), still, case)
-    n = 1000 if ctx.tier == "thorough" else 100
+    n = 2500 if ctx.tier == "thorough" else 100
     hists = [L.random_history(ctx.rng, ctx.rng.randint(1, 25)) for _ in range(n)]
     # a few directed ones (every operation kind on nested and sibling keys)
     hists += [
